@@ -163,9 +163,58 @@ def build_raw(rng, mtype, sig, body, big, serial):
     return hdr + b'\0' * (-len(hdr) % 8) + bodyb, oob
 
 
+def build_variant_msg(rng, base, want, big, serial):
+    """A message whose descriptors travel inside VARIANTS (signature without a literal 'h'; header
+    unix_fds = k).  txdbus cannot marshal that: the indices are encoded as UINT32 variants and the
+    variants' type code is switched to 'h' in the body bytes.  -> (raw, fds, sig)"""
+    marshal, message, _ = _mods()
+    k = want if want is not None else rng.choice([1, 1, 2, 3])
+    fds = [base + j for j in range(k)]
+    if k > 1 and rng.random() < 0.4:
+        fds[1] = fds[0]
+    U = marshal.UInt32
+    shape = rng.choice(['v', 'sv', 'a{sv}', 'vv']) if k else 'sv'
+    if k == 0:
+        sig, body = 'sv', ['plain', 'text']
+    elif shape == 'a{sv}' or k > 2:
+        sig, body = 'a{sv}', [dict(('k%d' % j, U(j)) for j in range(k))]
+    elif shape == 'vv' and k == 2:
+        sig, body = 'vv', [U(0), U(1)]
+    elif k == 1:
+        sig, body = ('v', [U(0)]) if shape == 'v' else ('sv', ['x\r\ny', U(0)])
+    else:
+        sig, body = 'a{sv}', [dict(('k%d' % j, U(j)) for j in range(k))]
+    lend = not big
+    bodyb = b''.join(marshal.marshal(sig, body, lendian=lend)[1])
+    bodyb = bodyb.replace(b'\x01u\x00', b'\x01h\x00')
+    mtype = rng.choice([1, 2, 4])
+    headers = []
+    if mtype in (1, 4):
+        headers.append([1, marshal.ObjectPath('/a')])
+    if mtype == 4:
+        headers.append([2, 'a.b'])
+    if mtype in (1, 4):
+        headers.append([3, 'M'])
+    if mtype == 2:
+        headers.append([5, U(1)])
+    headers.append([8, marshal.Signature(sig)])
+    if k:
+        headers.append([9, U(k)])
+    hdr = b''.join(marshal.marshal(message._headerFormat,
+                                   [ord('B') if big else ord('l'), mtype, 0, 1, len(bodyb), serial, headers],
+                                   lendian=lend)[1])
+    return hdr + b'\0' * (-len(hdr) % 8) + bodyb, fds, sig
+
+
 def gen_msg(rng, i, want=None):
     """Message number i of a sequence.  -> dict(raw, fds, sig)"""
     marshal, message, _ = _mods()
+    if rng.random() < 0.15 and (want is None or want <= 3):
+        raw, fds, sig = build_variant_msg(rng, 1000 * (i + 1), want, rng.random() < 0.3, i + 1)
+        decl, idx = info_of(raw)
+        if (decl or 0) != len(fds) or idx != list(range(len(fds))):
+            raise RuntimeError('variant message not built as intended: %r %r %r' % (decl, idx, fds))
+        return {'raw': raw, 'fds': fds, 'sig': sig}
     # mostly a range of its own per message; sometimes a range shared by all messages (values repeat
     # across messages)
     sig, body, trees, fds = gen_body(rng, 1000 * (i + 1) if rng.random() < 0.8 else 7, want)
@@ -191,26 +240,23 @@ class Probe(list):
         return ('idx', i)
 
 
-def collect_h(marshal, sig, vals, out):
-    for ct, v in zip(marshal.genCompleteTypes(sig), vals):
-        _collect(marshal, ct, v, out)
+class FD(int):
+    """Stand-in for a descriptor: recognisable wherever the parser puts it (also inside a variant,
+    whose inner signature the parsed body no longer shows)."""
 
 
-def _collect(marshal, ct, v, out):
-    c = ct[0]
-    if c == 'h':
+def walk(v, out):
+    """The descriptor arguments of a parsed body in argument order: FD stand-ins, probe markers, and
+    None (what an index outside the queue resolves to; DBus bodies hold no other None)."""
+    if isinstance(v, FD) or v is None or (isinstance(v, tuple) and len(v) == 2 and v[0] == 'idx'):
         out.append(v)
-    elif c == 'a':
-        if ct[1] == '{':
-            inner = list(marshal.genCompleteTypes(ct[2:-1]))
-            for k, x in v.items():
-                _collect(marshal, inner[0], k, out)
-                _collect(marshal, inner[1], x, out)
-        else:
-            for x in v:
-                _collect(marshal, ct[1:], x, out)
-    elif c == '(':
-        collect_h(marshal, ct[1:-1], v, out)
+    elif isinstance(v, dict):
+        for k, x in v.items():
+            walk(k, out)
+            walk(x, out)
+    elif isinstance(v, (list, tuple)):
+        for x in v:
+            walk(x, out)
 
 
 def info_of(raw):
@@ -219,7 +265,7 @@ def info_of(raw):
     m = message.parseMessage(raw, Probe())
     out = []
     if m.signature:
-        collect_h(marshal, m.signature, m.body, out)
+        walk(m.body, out)
     decl = getattr(m, 'unix_fds', None)
     return (None if decl is None else int(decl)), [x[1] for x in out]
 
@@ -242,9 +288,10 @@ def recv_classes(ctx):
                 m = self._last
                 args = []
                 if m is not None and m.signature:
-                    collect_h(marshal, m.signature, m.body, args)
-                self.log.append({'raw': bytes(raw).hex(), 'args': args, 'qb': qb,
-                                 'qa': list(self._receivedFDs)})
+                    walk(m.body, args)
+                args = [None if a is None else int(a) for a in args]
+                self.log.append({'raw': bytes(raw).hex(), 'args': args, 'qb': [int(x) for x in qb],
+                                 'qa': [int(x) for x in self._receivedFDs]})
 
             def methodCallReceived(self, m):
                 self._last = m
@@ -300,14 +347,15 @@ def observe(ctx, events, mode='binary', script=''):
     for ev in events:
         try:
             if ev[0] == 'f':
-                p.fileDescriptorReceived(int(ev[1:]))
+                p.fileDescriptorReceived(FD(int(ev[1:])))
             else:
                 p.dataReceived(bytes.fromhex(ev[1:]))
         except Exception as e:
             crashed = type(e).__name__
             break
     ctx.impl_trace()
-    return {'log': p.log, 'buffer': bytes(p._buffer).hex(), 'queue': list(p._receivedFDs), 'crashed': crashed,
+    return {'log': p.log, 'buffer': bytes(p._buffer).hex(), 'queue': [int(x) for x in p._receivedFDs],
+            'crashed': crashed,
             'script': ''.join(wrap.script) if wrap is not None else script,
             'auth': 1 if p._authenticated else 0, 'closed': 1 if p.transport.disconnecting else 0}
 
@@ -389,6 +437,8 @@ class Batch:
             ctx.case(stream, sample={'mode': sc.get('mode', 'binary'), 'msgs': sc['msgs'], 'events': sc['events']},
                      nontrivial=withfd)
             ctx.stat('%s:msgs=%d' % (stream, len(sc['msgs'])))
+            ctx.stat('%s:descriptors-in-variants=%s' % (stream, any(m['fds'] and 'h' not in m.get('sig', 'h')
+                                                                     for m in sc['msgs'])))
             ctx.stat('%s:fds-total=%s' % (stream, c04.bucket(sum(len(m['fds']) for m in sc['msgs']))))
             ctx.stat('%s:max-early-queue=%s' % (stream, c04.bucket(max([len(d['qa']) for d in o['log']] or [0]))))
             if out is not None:
@@ -405,7 +455,7 @@ class Batch:
 
 # --------------------------------------------------------------------------------------- event sequences
 def scenario(msgs, events):
-    return {'msgs': [{'raw': m['raw'].hex(), 'fds': m['fds']} for m in msgs],
+    return {'msgs': [{'raw': m['raw'].hex(), 'fds': m['fds'], 'sig': m.get('sig', '')} for m in msgs],
             'raws': [m['raw'].hex() for m in msgs], 'events': events}
 
 
